@@ -118,6 +118,9 @@ func (g *c13Gen) groupBy() {
 	case 5:
 		g.raw(" GROUP BY time(")
 		g.digit()
+		if vfChoice(2) == 0 {
+			g.raw("s")
+		}
 		g.raw(", now())")
 	case 6:
 		g.raw(" GROUP BY t, *, /re/")
@@ -182,7 +185,7 @@ func (c13Mapper) MapType(m *Measurement, field string) DataType {
 
 var c13Ops = []string{"String", "Clone", "WalkFunc", "RewriteRegexConditions", "RewriteDistinct", "RewriteTimeFields", "RewriteFields", "Reduce", "EvalCondition", "EvalType",
 	"ConditionExpr", "GroupByInterval", "GroupByOffset", "Normalize", "ColumnNames", "FieldExprByName", "FieldNames", "ExprNames", "HasTimeExpr", "ContainsVarRef-IsSelector",
-	"RequiredPrivileges", "SetTimeRange", "Measurements", "RewriteFields-then-ColumnNames"}
+	"RequiredPrivileges", "SetTimeRange", "Measurements", "Reduce-then-GroupByInterval-GroupByOffset", "Reduce-then-String-ColumnNames-ConditionExpr", "RewriteFields-then-ColumnNames"}
 
 func c13Apply(sel *SelectStatement, op int) {
 	valuer := &NowValuer{Now: time.Unix(0, 1000000000)}
@@ -243,6 +246,16 @@ func c13Apply(sel *SelectStatement, op int) {
 		sel.Clone().SetTimeRange(time.Unix(0, 0), time.Unix(10, 0))
 	case 22:
 		sel.Sources.Measurements()
+	case 23:
+		// the reduced statement (now() folded to a time literal) is a statement like any other
+		r := sel.Reduce(valuer)
+		r.GroupByInterval()
+		r.GroupByOffset()
+	case 24:
+		r := sel.Reduce(valuer)
+		_ = r.String()
+		r.ColumnNames()
+		ConditionExpr(r.Condition, valuer)
 	default:
 		if s2, err := sel.RewriteFields(c13Mapper{}); err == nil {
 			s2.ColumnNames()
@@ -279,6 +292,12 @@ func vfH_C13_select(tier int) {
 		g.digit()
 	}
 	text := string(g.b)
+	op := vfChoice(len(c13Ops))
+	if op == 23 || op == 24 {
+		// the reduced statement is printed and truncated by library code that is modelled on concrete values only:
+		// the symbolic digits are enumerated here (all ten values of each)
+		text = vfConcretize(text)
+	}
 	vfNote(text)
 	stmt, err := ParseStatement(text)
 	if err != nil {
@@ -286,7 +305,6 @@ func vfH_C13_select(tier int) {
 		return
 	}
 	sel := stmt.(*SelectStatement)
-	op := vfChoice(len(c13Ops))
 	panicked, msg := vfCatch(func() { c13Apply(sel, op) })
 	if panicked {
 		vfNativeNote(func() string { return "panic in " + c13Ops[op] + ": " + msg })
